@@ -25,6 +25,7 @@ import (
 	"net/url"
 	"os"
 	"path"
+	"regexp"
 	rpprof "runtime/pprof"
 	"sort"
 	"strconv"
@@ -124,6 +125,16 @@ func (p *prop) init() {
 		panic(err)
 	}
 	caddy.DefaultAdminListen = defaultLocalListen
+	// the environment placeholders in `listen` may refer to (same table in Driver.lean)
+	for _, e := range os.Environ() {
+		if strings.HasPrefix(e, "C13_") {
+			os.Unsetenv(strings.SplitN(e, "=", 2)[0])
+		}
+	}
+	for k, v := range map[string]string{"C13_HOST": "localhost", "C13_IP": "192.168.1.5", "C13_PORT": "2019",
+		"C13_WILD": "0.0.0.0", "C13_EMPTY": "", "C13_BRACE": "{env.C13_HOST}"} {
+		os.Setenv(k, v)
+	}
 	caddy.ConfigAutosavePath = dir + "/autosave.json"
 	caddy.RegisterModule(probeApp{})
 	caddy.RegisterModule(probeRouter{})
@@ -683,8 +694,18 @@ func alphaOnly(s string) bool {
 // inDomain returns "" when the case may be run, else the answer to print.
 func (c *acase) inDomain() string {
 	for i := 0; i < len(c.listen); i++ {
-		if b := c.listen[i]; b < 32 || b > 126 || b == '{' || b == '}' {
-			return "bad-op" // ToLower/TrimSpace/the replacer are only modelled on brace-free printable ASCII
+		if b := c.listen[i]; b < 32 || b > 126 {
+			return "bad-op" // ToLower/TrimSpace are only modelled on printable ASCII
+		}
+	}
+	// placeholders: only the harness's own environment variables; host name, working directory,
+	// clock and file providers are outside the protocol
+	if strings.Contains(c.listen, "system.") || strings.Contains(c.listen, "time.") || strings.Contains(c.listen, "file.") {
+		return "bad-op"
+	}
+	for i := 0; i < len(c.listen); i++ {
+		if strings.HasPrefix(c.listen[i:], "env.") && !strings.HasPrefix(c.listen[i:], "env.C13_") {
+			return "bad-op"
 		}
 	}
 	for _, u := range c.upg {
@@ -1013,12 +1034,43 @@ func (p *prop) serve(c *acase, h http.Handler) (o obs) {
 			o.cors = 2
 		}
 	}
+	// CORS headers (oracle): only on a local endpoint with enforce_origin, only echoing the
+	// request's own origin (scheme://[user@]host, nothing else of it), never a wildcard; the
+	// method/header/credential grants only on a preflight
+	if acao := rec.Header()["Access-Control-Allow-Origin"]; len(acao) > 0 {
+		raw := c.origin.raw
+		if raw == "" {
+			raw = c.referer.raw
+		}
+		want := "\x00unparsable"
+		if u, err := url.Parse(raw); err == nil {
+			u.Path, u.RawPath, u.Fragment, u.RawFragment, u.RawQuery = "", "", "", "", ""
+			want = u.String()
+		}
+		switch {
+		case c.remote || !c.eo:
+			o.extra = append(o.extra, core.Failure{Class: "cors-header-without-origin-enforcement",
+				What: fmt.Sprintf("Access-Control-Allow-Origin %q sent by an endpoint that does not enforce origins", acao)})
+		case len(acao) != 1 || acao[0] != want || raw == "":
+			o.extra = append(o.extra, core.Failure{Class: "cors-origin-not-echoed",
+				What: fmt.Sprintf("Access-Control-Allow-Origin is %q for the request origin %q (expected %q)", acao, raw, want)})
+		}
+	}
+	if len(rec.Header()["Access-Control-Allow-Methods"])+len(rec.Header()["Access-Control-Allow-Credentials"])+len(rec.Header()["Access-Control-Allow-Headers"]) > 0 &&
+		(c.method != "OPTIONS" || len(rec.Header()["Access-Control-Allow-Origin"]) == 0) {
+		o.extra = append(o.extra, core.Failure{Class: "cors-grants-outside-preflight",
+			What: "Access-Control-Allow-Methods/-Headers/-Credentials on a response that is not an allowed OPTIONS preflight"})
+	}
 	why := classifyRefusal(rec.Code, rec.Body.Bytes())
 	switch {
 	case panicked:
 		o.final = "panic"
 	case why != "":
 		o.final, o.refused = "refused:"+why, true
+		if req.Pattern == "" && len(rec.Header()["Access-Control-Allow-Origin"]) > 0 {
+			o.extra = append(o.extra, core.Failure{Class: "cors-header-on-refusal",
+				What: "a request refused before any handler ran carries Access-Control-Allow-Origin"})
+		}
 	case rec.Code == 301:
 		o.final = "mux-redirect"
 	case req.Pattern == "" && rec.Code == 404:
@@ -1048,7 +1100,37 @@ type spec struct {
 // ("network/host:port", network optional, IPv6 hosts in brackets) — on purpose not via caddy's
 // parser, so that a change there cannot move the oracle along with the code. ok=false: the
 // string is not of the plain documented form and the oracle makes no Host claim for it.
+var envPlaceholder = regexp.MustCompile(`\{env\.([A-Za-z0-9_]+)\}`)
+
+// specExpand expands {env.NAME} placeholders the way the documentation describes (each one is
+// replaced by the variable's value, once). mustFail: some placeholder expands to nothing — the
+// listen address is then unusable and the endpoint must not start (above all it must not come up on
+// the address with that part missing, e.g. ":2019"). ok=false: other placeholder syntax is
+// present and the oracle makes no claim.
+func specExpand(listen string) (out string, mustFail, ok bool) {
+	out = envPlaceholder.ReplaceAllStringFunc(listen, func(m string) string {
+		v := os.Getenv(envPlaceholder.FindStringSubmatch(m)[1])
+		if v == "" {
+			mustFail = true
+		}
+		return "\x00" + v + "\x00"
+	})
+	plain := strings.ReplaceAll(out, "\x00", "")
+	rest := envPlaceholder.ReplaceAllString(listen, "")
+	if strings.ContainsAny(rest, "{}\\") {
+		return plain, false, false
+	}
+	return plain, mustFail, true
+}
+
 func specListen(listen string, remote bool) (network, host, port string, ok bool) {
+	if strings.ContainsAny(listen, "{}\\") {
+		exp, mustFail, okx := specExpand(listen)
+		if !okx || mustFail || strings.ContainsAny(exp, "{}\\") {
+			return
+		}
+		listen = exp
+	}
 	if listen == "" {
 		if remote {
 			listen = ":2021"
@@ -1301,6 +1383,11 @@ func (p *prop) Run(line string) core.Outcome {
 	if err != nil {
 		return core.Outcome{Impl: "listen-error", Tags: []string{"listen-error"}}
 	}
+	var setup []core.Failure
+	if _, mustFail, okx := specExpand(c.listen); okx && mustFail {
+		setup = append(setup, core.Failure{Class: "listen-placeholder-error-ignored",
+			What: fmt.Sprintf("listen address %q contains a placeholder that expands to nothing, yet it was accepted as %s/%s:%d", c.listen, addr.Network, addr.Host, addr.StartPort)})
+	}
 	if ans := c.inDomainAddr(addr); ans != "" {
 		return core.Outcome{Impl: ans, Tags: []string{ans, "trivial"}}
 	}
@@ -1353,6 +1440,10 @@ func (p *prop) Run(line string) core.Outcome {
 		out.Tags = append(out.Tags, "via-caddy-load")
 	}
 	out.Failures = append(out.Failures, o.extra...)
+	out.Failures = append(out.Failures, setup...)
+	if strings.ContainsAny(c.listen, "{}") {
+		out.Tags = append(out.Tags, "listen-placeholder")
+	}
 	if len(tags) == 0 && !c.remote && !c.eo && len(c.upg) == 0 {
 		out.Tags = append(out.Tags, "trivial")
 	}
